@@ -11,7 +11,7 @@ from ..oracles import graphs as G
 from ..workloads import gmat
 from . import _gc
 
-TECHNIQUE = "runtime post-condition monitors on imec/dag_to_icpdag/pdag_to_icpdag vs. brute-force class filtered by target parent sets (all (DAG, I) pairs p<=4 quick, p<=5 thorough)"
+TECHNIQUE = "runtime post-condition monitors on imec/dag_to_icpdag/pdag_to_icpdag vs. brute-force class filtered by target parent sets (all (DAG, I) pairs p<=4 quick, p<=5 thorough; dense 6-7 node DAGs via a covered-edge-reversal class search)"
 LEVEL_TEXT = ("Every (DAG, target set) pair on p<=4 nodes (8,9k pairs, quick) and p<=5 (937k pairs, thorough, time-boxed) is run "
               "through imec and dag_to_icpdag and compared with the brute-force class filtered by the targets' parents; "
               "because every member of every class is enumerated, member-independence, I={} => MEC/CPDAG, I=[p] => {A} and "
